@@ -40,6 +40,10 @@ class SymbolicLeak(BaseException):
     """A symbolic value reached an operation the proxies do not model."""
 
 
+class PathTimeout(BaseException):
+    """One execution of a harness exceeded the wall-clock budget for a single path."""
+
+
 class PathAbort(BaseException):
     """Ends the current path (infeasible assumption / cut)."""
 
